@@ -400,7 +400,7 @@ def check_property(prop, reg, args, seed):
             seen_assumptions.add((pat, text))
             assumptions.append('%s.rs:%d [%s] %s' % (u, ln, pat, text))
     # baseline comparison: every obligation discharged in the baseline must exist now
-    base = baseline.get(prop, {})
+    base = {} if args.rebaseline else baseline.get(prop, {})
     cur_ids = {o['id']: o for o in obligations}
     for oid in base.get('discharged', []):
         if oid not in cur_ids and not any(oid.startswith(t.split(':')[0] + '/') for t in tool_limits):
@@ -441,7 +441,9 @@ def check_property(prop, reg, args, seed):
     lines = []
     rc = 0
     for kf, rec in known_hits:
-        lines.append('KNOWN-FINDING: property=%s %s at `%s`: %s' % (prop, rec['obligation'], rec['at'], kf['what']))
+        ln = 'KNOWN-FINDING: property=%s %s at `%s`: %s' % (prop, rec['obligation'], rec['at'], kf['what'])
+        if ln not in lines:     # one line per finding, however many exits of the function hit the same clause
+            lines.append(ln)
     replay_paths = []
     if violations:
         rc = 1
